@@ -661,8 +661,18 @@ class dir_archive(archive):
             raise
         # move the results to the proper place
         try: #XXX: possible permissions issues here
-            self._rmdir(key) #XXX: 'key' must be a suitable dir name
-            os.renames(self._getdir(_key), self._getdir(key))
+            _old, _new = self._getdir(key), self._getdir(_key) #XXX: 'key' must be a suitable dir name
+            if os.path.isdir(_old):
+                # replace the files of the existing entry one by one (each is
+                # atomic), so the key is never missing while it is overwritten
+                files = os.listdir(_new)
+                for f in files:
+                    os.replace(os.path.join(_new, f), os.path.join(_old, f))
+                for f in os.listdir(_old):
+                    if f not in files: os.remove(os.path.join(_old, f))
+                self._rmdir(_key)
+            else:
+                os.renames(_new, _old)
 #       except TypeError: #XXX: catch key that isn't converted to safe filename
 #           "error in populating directory for '%s'" % str(key)
         except OSError: # the rename failed, so remove the temporary directory
